@@ -1,6 +1,6 @@
 (* C07 — property theorems only: each closed by [exact lemma], followed by Print Assumptions. *)
 From Coq Require Import List ZArith Bool.
-From Verif Require Import C07.Model C07.Proof.
+From Verif Require Import C07.Model C07.Proof C07.Equiv.
 Import ListNotations.
 Open Scope Z_scope.
 
@@ -49,12 +49,38 @@ Theorem C07_nested_panic_replaces : forall v w k,
 Proof. intros; split; [apply panic_in_deferred_replaces|apply unrecovered_panic_escapes]. Qed.
 Print Assumptions C07_nested_panic_replaces.
 
-(* "recovered inner panics leave the outer one" is REFUTED on the current code (finding C07-1): Go lets panic(1)
-   escape from k1; the modelled executor (and the real one: replayed by the harness) returns normally *)
-Theorem C07_nested_panic_refuted : exists P top n,
-  sem_run n P top = Some (RPanic 1, 0, [1002]) /\ m_run n P top = Some (RNormal, 0, [1002]).
-Proof. exists k1, 0%nat, 30%nat. exact nested_recovered_refuted. Qed.
-Print Assumptions C07_nested_panic_refuted.
+(* "recovered inner panics leave the outer one": REFUTED on the code before fix C07-1 (fx = false: rundefer without
+   restorePanic): Go lets panic(1) escape from k1, the modelled executor (and the real one of that tree: replayed by the
+   harness) returned normally ... *)
+Theorem C07_nested_panic_refuted_before_fix : exists P top n,
+  sem_run n P top = Some (RPanic 1, 0, [1002]) /\ mc_run false n P top = Some (RNormal, 0, [1002]).
+Proof. exists k1, 0%nat, 30%nat. exact nested_recovered_refuted_before_fix. Qed.
+Print Assumptions C07_nested_panic_refuted_before_fix.
 
-(* C07_trace_equiv (model = reference semantics for ALL call trees without a panic recovered inside a deferred
-   call) is not proved: it is tied only by the correspondence run (both evaluated on every generated tree). *)
+(* ... and holds on the current code for the witness (for ALL trees it is an instance of C07_trace_equiv below) *)
+Theorem C07_nested_panic_recovered_inner_leaves_outer :
+  sem_run 30 k1 0 = Some (RPanic 1, 0, [1002]) /\ m_run 30 k1 0 = Some (RPanic 1, 0, [1002]).
+Proof. exact nested_recovered_fixed. Qed.
+Print Assumptions C07_nested_panic_recovered_inner_leaves_outer.
+
+(* The model of the executor state machine (code with fix C07-1) and the reference semantics agree on EVERY call tree
+   built from emit / r = k / r += k / panic / call / defer closure / defer function / recover / recover one call
+   deeper, for every entry point and every fuel: same outcome (normal return or the escaping panic value), same named
+   result, same event trace, and the same out-of-fuel behaviour ([None] on one side iff on the other).  Proved by
+   mutual induction on the fuel with the invariant [Equiv.rel]: between two points of an activation the Run fields
+   DeferOfFun / IsDefer / StartDefer are unchanged and (Panic, PanicFun) are either unchanged or were consumed by
+   the one successful recover() the semantics also records; every rundefer leaves the Run state as it found it. *)
+Theorem C07_trace_equiv : forall n P top, m_run n P top = sem_run n P top.
+Proof. exact trace_equiv. Qed.
+Print Assumptions C07_trace_equiv.
+
+(* non-vacuity: a tree with nested deferred calls, an inner panic recovered inside a deferred call, a re-panic,
+   recover one call deeper, a deferred named function that itself defers: both sides terminate with a long trace *)
+Definition ex_tree : prog :=
+  [ [ADeferClo [ARecover; AAddR 3]; AEmit 7; APanic 5];
+    [ADeferClo [ARecoverDeep; ADeferClo [ARecover]; ACall 0; APanic 9]; ADeferFn 0; ADeferClo [ARecover; APanic 4]; ASetR 2; APanic 1] ].
+
+Example ex_tree_runs :
+  sem_run 60 ex_tree 1 = Some (RPanic 4, 2, [1009; 503; 1005; 7; -1; 1005; 7; 1001]) /\
+  m_run 60 ex_tree 1 = sem_run 60 ex_tree 1.
+Proof. split; [vm_compute; reflexivity|apply trace_equiv]. Qed.
